@@ -271,6 +271,15 @@ def _process_properties(  # noqa: PLR0912, PLR0911
             if naming_error is not None:
                 return naming_error
 
+        # Resolving a conflict renames both properties, which can move one of them onto the name of a third
+        python_names = [prop.python_name for prop in properties.values() if prop.name != merged_prop.name]
+        python_names.append(merged_prop.python_name)
+        if len(set(python_names)) != len(python_names):
+            return PropertyError(
+                header="Conflicting property names",
+                detail=f"Could not find a unique python_name for property {merged_prop.name}",
+            )
+
         properties[merged_prop.name] = merged_prop
         return None
 
